@@ -44,17 +44,20 @@
      9. (round 8) across a restart, from ANY state: if Open succeeds, the
         position's checksum is the from-scratch checksum of the database file
         and the cache is the file's (C04_open_recomputes).
-   NOT proved (C04_history_partial): the same composition through a
-   checkpoint run by SQLite (page writes to the database file in WAL mode and
-   the restart of the log), the way back out of WAL mode, and a node that
-   changes role or restarts between the histories above (Open re-establishes
+    10. (round 8) ... and with checkpoints run by SQLite: single pages of the
+        log written into the database file through LiteFS (a checkpoint that
+        goes part of the way), and the complete one - every page of the log
+        within the database size, the cut of the file, the restart of the log
+        at which LiteFS forgets its WAL bookkeeping (C04_wal_full_history).
+   NOT proved (C04_history_partial): the way back out of WAL mode, and a node
+   that changes role or restarts between the histories above (Open re-establishes
    the per-page agreement, but the journal mode afterwards depends on the
    newest file's page 1, which the invariants above do not track); it is re-checked on
    every run by the correspondence (the model re-executes every generated
    history and must reproduce every reported position) and by the harness'
    raw-file recomputation. *)
 From Coq Require Import NArith List Bool.
-Require Import LF.Gen.ConstsGen LF.Model.PageDB LF.Proofs.XorLib LF.Proofs.ChecksumProofs LF.Proofs.CaptureProofs LF.Proofs.HistoryProofs LF.Proofs.WalHistoryProofs LF.Proofs.WalCheckpointProofs LF.Proofs.ApplyHistoryProofs LF.Proofs.OpenProofs.
+Require Import LF.Gen.ConstsGen LF.Model.PageDB LF.Proofs.XorLib LF.Proofs.ChecksumProofs LF.Proofs.CaptureProofs LF.Proofs.HistoryProofs LF.Proofs.WalHistoryProofs LF.Proofs.WalCheckpointProofs LF.Proofs.SqlCheckpointProofs LF.Proofs.ApplyHistoryProofs LF.Proofs.OpenProofs.
 Import ListNotations.
 Local Open Scope N_scope.
 
@@ -269,3 +272,40 @@ Example C04_open_recomputes_nonvacuous :
     | _ => False
     end.
 Proof. exact open_checksum_example. Qed.
+
+(* WAL mode with every kind of checkpoint.  [os]: in any order and number -
+     W2Commit frames commit   a committed WAL transaction ([wf_wal2] as above);
+     W2Checkpoint             LiteFS's own checkpoint;
+     W2Backfill p             SQLite copies the log's last committed version of page p (1 <= p <= database size) into the
+                              database file - a write LiteFS sees in WAL mode (a checkpoint that goes part of the way);
+     W2SqlRestart             SQLite copies every page of the log within the database size, cuts the file to the database
+                              size, and starts the log over with its next write - LiteFS forgets its WAL bookkeeping
+                              ([sql_ckpt_ops]; the pages written are determined by the state, nothing is assumed).
+   For EVERY such history the conclusions of C04_wal_checkpoint_history hold. *)
+Theorem C04_wal_full_history : forall lock hs zf acts c os s1 s2 s' v',
+  1 <= lock -> wf_hist (init lock) hs -> run_hsteps (init lock) hs = Some s1 ->
+  wf_tx_any s1 zf acts -> run_group s1 (hops s1 (HTx zf acts c)) = (0, s2) -> wal_mode s2 = true ->
+  wf_wops2 s2 os -> run_wops2 s2 (file_h s2) os = Some (s', v') ->
+  chk s' = scratch (fun p => if p =? lock then 0 else v' p) (pageN s') /\
+  (forall p, 1 <= p <= pageN s' -> p <> lock -> eff s' (pageN s') [] p = v' p) /\
+  (wal_file s' = [] -> forall p, 1 <= p <= pageN s' -> p <> lock -> file_h s' p = v' p) /\ lockpg s' = lock.
+Proof. exact wal_full_history_checksum. Qed.
+Print Assumptions C04_wal_full_history.
+
+Example C04_wal_full_history_nonvacuous :
+  let pg h := mkPg (fl h) 0 false in
+  let pw h := mkPg (fl h) 0 true in
+  let hs := [HTx [] [AWrite 1 (pg 11); AWrite 2 (pg 12)] 2] in
+  let sw := [AWrite 1 (pw 13)] in
+  let os := [W2Commit [(2, pw 22); (3, pw 33); (2, pw 23)] 3; W2Backfill 2; W2Commit [(1, pw 14)] 2; W2SqlRestart;
+             W2Commit [(3, pw 35); (1, pw 15)] 3; W2Checkpoint] in
+  exists s1 s2,
+    wf_hist (init 2097153) hs /\ run_hsteps (init 2097153) hs = Some s1 /\
+    wf_tx_any s1 [] sw /\ run_group s1 (hops s1 (HTx [] sw 2)) = (0, s2) /\ wal_mode s2 = true /\
+    wf_wops2 s2 os /\
+    match run_wops2 s2 (file_h s2) os with
+    | Some (s', v') => (txid s', pageN s', chk s' =? fl (N.lxor (N.lxor (fl 15) (fl 23)) (fl 35)), length (wal_file s'),
+                        map (file_h s') [1; 2; 3]) = (5, 3, true, 0%nat, [fl 15; fl 23; fl 35])
+    | None => False
+    end.
+Proof. exact wal_full_history_example. Qed.
